@@ -22,7 +22,7 @@ from pypika_tortoise.terms import Case, SystemTimeValue, Tuple
 
 PROPERTY = "C11"
 
-SHAPES = ["plain", "aliased", "schema", "temporal", "subquery", "subquery_auto", "cte", "setop", "setop_auto"]
+SHAPES = ["plain", "aliased", "schema", "schema_aliased", "temporal", "subquery", "subquery_auto", "cte", "setop", "setop_auto"]
 COLRX = re.compile(r"^(?P<key>[a-z0-9]+)__(?P<role>[a-z]+)\d*$")
 
 
@@ -44,6 +44,9 @@ class Src:
         elif shape == "schema":
             self.obj = Table(key, schema="sch")
             self.aliased = False
+        elif shape == "schema_aliased":
+            self.obj = Table("base_" + key, schema=("db", "sch"), alias=key)
+            self.aliased = True
         elif shape == "temporal":
             self.obj = Table(key).for_(SystemTimeValue().as_of("2020-01-01"))
             self.aliased = False
@@ -94,9 +97,19 @@ def select_cases():
                 yield {"k": "select", "shapes": list(shapes), "combine": combine, "foreign": False}
         for shapes in itertools.product(AUTO, repeat=n):
             yield {"k": "select", "shapes": ["plain"] + list(shapes), "combine": "join", "foreign": False}
+    # table.* references: qualified like a column of that source would be
+    STAR_SHAPES = ("plain", "aliased", "schema", "schema_aliased", "temporal", "subquery")
+    for sh in STAR_SHAPES:
+        yield {"k": "star", "shapes": [sh]}
+        for sh2 in STAR_SHAPES:
+            yield {"k": "star", "shapes": [sh, sh2]}
     for sh in SHAPES:
         for slot in SLOTS:
             yield {"k": "correlated", "shapes": [sh], "slot": slot}
+        # the outer row source is not a plain table
+        for outer in ("aliased", "schema_aliased", "subquery", "cte", "setop"):
+            for slot in ("eq", "eq_swapped", "between_lo", "fn_arg", "chain3"):
+                yield {"k": "correlated", "shapes": [sh], "slot": slot, "outer": outer}
     for order in ("inner_first", "outer_first"):
         for col in ("same", "different"):
             for via in ("ctor", "as_after_use"):
@@ -211,15 +224,31 @@ def build(case, Q):
         expect(srcs[:1], ["selc"], multi)
         exp["shared__using"] = (False, None)
         return q, exp
+    if k == "star":
+        a = srcs[0]
+        q = q.from_(a.obj)
+        for s2 in srcs[1:]:
+            q = q.join(s2.obj).on(a.f("on") == s2.f("on"))
+        multi = len(srcs) > 1 or a.is_subquery
+        q = q.select(*[s_.obj.star for s_ in srcs]).where(a.f("whr") > 1)
+        expect(srcs, ["on", "whr"], multi)
+        case["_stars"] = [(s_.display() if (multi or s_.aliased) else None) for s_ in srcs]
+        return q, exp
     if k == "correlated":
         a = srcs[0]
-        outer = Table("outer1")
-        inner = q.from_(a.obj).select(a.f("sel")).where(SLOTS[case.get("slot", "eq")](a.f("whr"), outer.field("outer1__corr")))
-        stmt = Q.from_(outer).select(outer.field("outer1__sel")).where(outer.field("outer1__whr").isin(inner))
-        expect(srcs, ["sel", "whr"], True)  # the inner query refers to a table outside its own sources
+        if case.get("outer"):
+            oh = [Q._builder()]
+            osrc = Src(case["outer"], "outer1", Q, oh)
+            outer, oq, o_qual = osrc.obj, oh[0], True
+        else:
+            outer, oq, o_qual = Table("outer1"), Q._builder(), False
+        of = lambda r: Field("outer1__" + r, table=outer)  # noqa
+        inner = q.from_(a.obj).select(a.f("sel")).where(SLOTS[case.get("slot", "eq")](a.f("whr"), of("corr")))
+        stmt = oq.from_(outer).select(of("sel")).where(of("whr").isin(inner))
+        expect(srcs, ["sel", "whr"], True)  # the inner query refers to a row source outside its own sources
         exp["outer1__corr"] = (True, "outer1")
-        exp["outer1__sel"] = (False, None)
-        exp["outer1__whr"] = (False, None)
+        exp["outer1__sel"] = (o_qual, "outer1")
+        exp["outer1__whr"] = (o_qual, "outer1")
         return stmt, exp
     if k == "correlated_self":
         # the inner source is the outer table under an alias: same table name, same column name on both sides
@@ -318,6 +347,13 @@ def run_case(case):
                     case={k_: v_ for k_, v_ in case.items() if not k_.startswith("_")}, error=str(e)[:200])
         return res
     res.nontrivial = 1
+    # a derived statement is made and thrown away: the statement under test must not notice
+    try:
+        for s_ in _LAST_SRCS[:2]:
+            if isinstance(s_.obj, Table):
+                stmt.replace_table(s_.obj, Table("zz_repl", alias="zz_r"))
+    except Exception:
+        pass
     res.states.append(h64(repr(sorted((k, str(v)) for k, v in case.items() if k != "d" and not k.startswith("_")))))
     for param in (False, True):
         res.transitions += 1
@@ -378,6 +414,14 @@ def run_case(case):
             if sorted(map(str, quals)) != ["e2", "emp"]:
                 res.violate("C11|correlated_self|whr|unqualified|same-name", "the outer table's column in a self-correlated subquery is not "
                             "qualified by the outer table (qualifiers found: %s)" % quals, case=case, sql=sql)
+        if case["k"] == "star":
+            stars = [toks[i - 2].value if (i >= 2 and toks[i - 1].kind == "OP" and toks[i - 1].text == "." and toks[i - 2].kind == "ID") else None
+                     for i, t in enumerate(toks) if t.kind == "OP" and t.text == "*"]
+            # a schema / database qualifier in front of the name is not part of a column reference
+            deep = [i for i, t in enumerate(toks) if t.kind == "OP" and t.text == "*" and i >= 4 and toks[i - 3].kind == "OP" and toks[i - 3].text == "."]
+            if stars != case["_stars"] or deep:
+                res.violate("C11|star|wrong-qualifier|%s" % "+".join(case["shapes"]), "table.* references are qualified %s (schema-prefixed: %s), expected %s"
+                            % (stars, bool(deep), case["_stars"]), case={k_: v_ for k_, v_ in case.items() if not k_.startswith("_")}, sql=sql)
         if case["k"] == "derived_sources":
             names = case.get("_names")
             for col in ("dsh__on", "dsh__sel", "dsh__whr"):
